@@ -120,12 +120,14 @@ lemma(
     vars={"n": "Node", "k": "int"},
     hyps=[
         "0 <= k <= nchildren(n)",
+        # Clean(n): the value of every child equals the text it covers
+        "implies(k < nchildren(n), child_at(n, k).value == n.value[child_at(n, k).start : child_at(n, k).end])",
+    ],
+    ih=[
         # induction hypothesis on the remaining children (measure nchildren(n) - k)
         "implies(k < nchildren(n), flat_from(n, k + 1, 0) == n.value)",
         # structural induction hypothesis: the k-th child is itself a clean tree
         "implies(k < nchildren(n), flat_from(child_at(n, k), 0, 0) == child_at(n, k).value)",
-        # Clean(n): the value of every child equals the text it covers
-        "implies(k < nchildren(n), child_at(n, k).value == n.value[child_at(n, k).start : child_at(n, k).end])",
     ],
     goal="flat_from(n, k, 0) == n.value",
     notes="induction step of: Clean(n) ==> flat_from(n, k, 0) == n.value for all k; the well-founded order (tree height, then nchildren - k) is the meta-level part",
